@@ -35,7 +35,7 @@ def gen_case(rng, widths):
     path = () if rng.random() < 0.7 or not cands else rng.choice(cands)
     return {
         "tree": t, "how": rng.choice(["parsed", "parsed", "api"]), "path": list(path),
-        "indent": rng.choice(["", " ", "  ", "\t"]), "align": rng.random() < 0.3, "width": rng.choice(widths),
+        "indent": rng.choice(["", " ", "  ", "\t", "   ", "    "]), "align": rng.random() < 0.3, "width": rng.choice(widths),
         "decls": None if rng.random() < 0.7 else S.gen_decls(rng, S.tree_namespaces(t)),
     }
 
